@@ -175,11 +175,19 @@ def main():
     tags = ["default"] if a.tier == "quick" else ["default", "sync", "noweak"]
     facts_dir = ensure_facts(tags)
     ctx = Ctx(facts_dir, a.tier, tags)
-    mod = importlib.import_module("rules.%s" % prop.lower())
     rep = R.Report(prop, a.tier)
-    extra = mod.check(ctx, rep) or {}
-    from rules import mechanisms
-    mechanisms.run(rep, ctx, prop)
+    extra = {}
+    try:
+        # anything that goes wrong outside a single rule (a rule module that does not import, the mechanism table) is a
+        # failure of the check, reported as such with a VIOLATION line — never a silent pass, never a bare traceback
+        mod = importlib.import_module("rules.%s" % prop.lower())
+        extra = mod.check(ctx, rep) or {}
+        from rules import mechanisms
+        mechanisms.run(rep, ctx, prop)
+    except Exception as e:  # noqa: BLE001
+        import traceback
+        rep.obs.append(R.Ob("%s.<check>" % prop, "<check>", "rule-crash", False,
+                            "the check crashed outside a rule (fail closed): %r at %s" % (e, traceback.format_exc().strip().splitlines()[-3:][0].strip()[:160]), None, False))
     # thorough: the same rules over the other cfg arms (yrs[weak,sync] and yrs without features)
     alt_summary = {}
     for tag in tags:
